@@ -11,6 +11,11 @@ def jobs(tier):
     for j in c01.layout_jobs(tier):
         _, cfg, hists, label = j
         out.append({"cfg": cfg, "hists": [h for h, _ in hists], "oracles": ["counters"], "label": label})
+        multi = [h for h, _ in hists if len(h) >= 2]
+        if multi:
+            # the same histories with the getters queried only around the first call and after close
+            out.append({"cfg": cfg, "hists": multi[::2], "oracles": ["counters"], "label": label + " sparse getters",
+                        "opts": {"sparse_getters": True}})
     # histories with rejected calls interleaved, all modes
     rates = U.LAYOUT_RATES[:3] if tier == "quick" else U.LAYOUT_RATES
     bases = c05.base_histories(tier)
